@@ -450,5 +450,7 @@ TopoView(t) == [objs |-> [p \in Pos(t) |-> ObjView(O(t, p))], depth |-> t.depth,
 \* a synthetic description carries the types, the arities and the PU / NUMA node indexes (seen in the sets)
 SynLevel(t, d) == [k \in DOMAIN LObjs(t, d) |-> LET o == O(t, LObjs(t, d)[k]) IN [type |-> o.type, cs |-> o.cs, ns |-> o.ns, arity |-> o.arity, marity |-> o.marity]]
 PUView(t) == [k \in DOMAIN LObjs(t, t.depth - 1) |-> O(t, LObjs(t, t.depth - 1)[k]).cs]
+StructLevel(t, d) == [k \in DOMAIN LObjs(t, d) |-> LET o == O(t, LObjs(t, d)[k]) IN [type |-> o.type, arity |-> o.arity, marity |-> o.marity]]
+StructView(t) == [depth |-> t.depth, levels |-> [d \in 0..(t.depth - 1) |-> StructLevel(t, d)], numa |-> Len(LObjs(t, -3))]
 SynView(t) == [depth |-> t.depth, levels |-> [d \in 0..(t.depth - 1) |-> SynLevel(t, d)], numa |-> SynLevel(t, -3)]
 =============================================================================
